@@ -2,6 +2,7 @@ package props
 
 import (
 	"fmt"
+	"go/types"
 	"sort"
 	"strings"
 
@@ -1082,9 +1083,29 @@ func (h H) replicationLearnsConfig(rule string) {
 		}
 		return n == 1 && good
 	}
+	// a pending update taken back out of a replication's mailbox may carry a
+	// configuration the replication has not seen: it is handed over with the
+	// replacing update exactly when that one carries none (never over a newer one)
+	carried := func(v ssa.Value) bool {
+		s := nfi.Sym(v).String()
+		return strings.HasPrefix(s, "select@") && strings.HasSuffix(s, ".config")
+	}
+	badStore := ""
 	core.Instrs(nf, func(in ssa.Instruction) {
 		st, ok := in.(*ssa.Store)
 		if !ok || !strings.HasSuffix(nfi.Sym(st.Addr).String(), ".config") {
+			return
+		}
+		if carried(st.Val) {
+			guarded := false
+			for _, a := range nfi.FactsAt(in) {
+				if a.Implies(core.MkAtom(nfi.Sym(st.Addr).String(), "==", "nil")) {
+					guarded = true
+				}
+			}
+			if !guarded {
+				badStore = h.pos(in) + ": the configuration of the replaced update overwrites the one of the new update"
+			}
 			return
 		}
 		if phi, isPhi := st.Val.(*ssa.Phi); isPhi {
@@ -1104,6 +1125,104 @@ func (h H) replicationLearnsConfig(rule string) {
 		okCfg = has(nfi.FactsAt(in), "true") && isCopy(st.Val)
 	})
 	h.C.Check(rule+" config-attached-when-changed", "(*leader).notifyFlr", okCfg, h.fpos(nf), "notifyFlr(includeConfig=true) must attach the latest configuration to the update")
+	h.C.Check(rule+" carried-config-only-fills-a-gap", "(*leader).notifyFlr", badStore == "", h.fpos(nf), badStore)
+	// replacing a pending update must not lose the configuration it carried:
+	// every way from taking it out of the mailbox to the send that replaces it
+	// either knows the new update has a configuration (or the old one had none),
+	// or copies the old one's configuration into the update being sent
+	nSel := 0
+	core.Instrs(nf, func(in ssa.Instruction) {
+		sel, ok := in.(*ssa.Select)
+		if !ok {
+			return
+		}
+		for k, stt := range sel.States {
+			if stt.Dir != types.RecvOnly || !strings.HasSuffix(nfi.Sym(stt.Chan).String(), ".leaderUpdateCh") {
+				continue
+			}
+			nSel++
+			recvSym := fmt.Sprintf("%s#%d", nfi.Sym(sel).String(), 2+recvOrdinal(sel, k))
+			nSend := 0
+			core.Instrs(nf, func(in2 ssa.Instruction) {
+				snd, ok := in2.(*ssa.Send)
+				if !ok || !strings.HasSuffix(nfi.Sym(snd.Chan).String(), ".leaderUpdateCh") || !fwdReachInstr(sel, snd) {
+					return
+				}
+				nSend++
+				sent := nfi.Sym(snd.X).String()
+				pass := func(a core.Atom) bool {
+					return a.Implies(core.MkAtom(sent+".config", "!=", "nil")) || a.Implies(core.MkAtom(recvSym+".config", "==", "nil")) ||
+						a.Implies(core.MkAtom(nfi.Sym(sel).String()+"#0", "!=", fmt.Sprint(k)))
+				}
+				hit := func(i ssa.Instruction) bool {
+					st, ok := i.(*ssa.Store)
+					return ok && nfi.Sym(st.Addr).String() == sent+".config" && nfi.Sym(st.Val).String() == recvSym+".config"
+				}
+				var res core.GateResult
+				inLoop := false
+				for _, hd := range core.LoopHeaders(nf) {
+					if core.InLoop(hd, snd.Block()) && core.InLoop(hd, sel.Block()) && !inLoop {
+						inLoop = true
+						res = nfi.MustCrossOrPassInLoop(hd, snd, pass, hit)
+					}
+				}
+				if !inLoop {
+					res = nfi.MustCrossOrPass(snd, pass, nil, hit)
+				}
+				h.C.Check(rule+" pending-config-carried", fmt.Sprintf("(*leader).notifyFlr send#%d after taking the pending update", nSend), res.OK, h.pos(snd),
+					"the update taken out of a replication's mailbox may carry a configuration the replication has not seen; the update replacing it carries none and the configuration is lost (the replication keeps treating a promoted node as non-voter and sends it no heartbeats): "+res.Witness)
+			})
+			h.C.Floor(rule+" (sends replacing a pending update)", nSend, 1)
+		}
+	})
+	h.C.Floor(rule+" (mailbox drains in notifyFlr)", nSel, 1)
+}
+
+// recvOrdinal: position of state k among the receive states of sel (the
+// received values follow the index and ok results of the select tuple).
+func recvOrdinal(sel *ssa.Select, k int) int {
+	n := 0
+	for i := 0; i < k; i++ {
+		if sel.States[i].Dir == types.RecvOnly {
+			n++
+		}
+	}
+	return n
+}
+
+// fwdReachInstr: b can execute after a (same block later, or a reachable block).
+func fwdReachInstr(a, b ssa.Instruction) bool {
+	if a.Block() == b.Block() {
+		ia, ib := -1, -1
+		for i, in := range a.Block().Instrs {
+			if in == a {
+				ia = i
+			}
+			if in == b {
+				ib = i
+			}
+		}
+		if ia < ib {
+			return true
+		}
+	}
+	seen := map[*ssa.BasicBlock]bool{}
+	var walk func(x *ssa.BasicBlock) bool
+	walk = func(x *ssa.BasicBlock) bool {
+		for _, s := range x.Succs {
+			if s == b.Block() {
+				return true
+			}
+			if !seen[s] {
+				seen[s] = true
+				if walk(s) {
+					return true
+				}
+			}
+		}
+		return false
+	}
+	return walk(a.Block())
 }
 
 // leaderHintProtection (C17.3b): Raft.leader != 0 is what makes the vote
